@@ -90,6 +90,9 @@ class SymEnv(object):
           m.np = nplite
         except ImportError:
           pass
+      if hasattr(m, 'pretty_midi') and k.endswith('.midi_io'):
+        from engine import pmlite  # pylint: disable=g-import-not-at-top
+        m.pretty_midi = pmlite
       if hasattr(m, 'random') and isinstance(m.random, types.ModuleType):
         from engine import symrandom  # pylint: disable=g-import-not-at-top
         m.random = symrandom
